@@ -63,6 +63,18 @@ struct Mon {
 
 impl Prop for C07 {
     type Case = FwCase;
+    fn admissible(case: &FwCase) -> bool {
+        crate::props::fw_admissible(case)
+            && case.max_padding_frac.0 == 0.0
+            && case.max_blocking_frac.0 == 0.0
+            && case.machines.iter().all(|m| {
+                m.allowed_padding_packets == u64::MAX
+                    && m.allowed_blocked_microsec == u64::MAX
+                    && m.max_padding_frac.0 == 0.0
+                    && m.max_blocking_frac.0 == 0.0
+            })
+    }
+
     const ID: &'static str = "C07";
     const RULE: &'static str = "case = 1..=3 machines (<=3 states) with limited SendPadding/BlockOutgoing/UpdateTimer (constant limits 0..=5 incl. fractional constants, and sampled Uniform limits), unlimited packet/time budgets, self-loops on completion events, CounterZero and LimitReached round trips x history of single-event calls and batches interleaving completions for the right machine, for neighbours and for unknown ids x scripted/seeded stream. Oracle = monitor over step log + returned actions (limit per stay from the definition; for sampled limits from the first snapshot). Non-trivial: a stay in which the limit was reached, or a state entered with L=0, or a foreign/unknown-id completion arrived during a limited stay, or a limited state was left and re-entered within one call. Distinct = hash of the case.";
 
